@@ -26,6 +26,8 @@ PAPERS = {
     # landscape flag with the paper given short edge first (width < height), as for A4 written 8.27 x 11.69
     "a4landp": {"orientation": "landscape", "paper": (8.27, 11.69)},
     "custom": {"paper": (7.3, 9.45), "margin": [0.9, 0.8, 1.1, 0.7, 0.6, 0.55], "col_width": 5.1},
+    # the table is wider than the text area (col_width above paper width minus side margins)
+    "widecol": {"col_width": 7.5},
     # letter paper with margins of its own (same size and orientation as "letter")
     "letterm": {"margin": [1.0, 1.3, 1.6, 1.1, 1.45, 0.95]},
 }
@@ -78,6 +80,7 @@ DEFAULT_OPTS = {
     "kinds": None,              # per data column: "str" | "int" | "float"
     "convert": True,
     "prefixes": False,          # also run every proper prefix (C04 PrefixStable)
+    "last_row": None,           # RTFBody(last_row=...) when not None (a documented option; placement must not depend on it)
     "tcv": False,               # text_convert is a per-ROW matrix (row 1 on, the others off) and the wrapping texts are full of '_' (printed verbatim)
     "numh": None,               # "int" | "float": row heights produced by a NUMERIC column (narrow, wrapping digits) instead of a text cell
     "gby": 0,                   # > 0: the second data column is a group_by column whose label needs that many lines
@@ -309,6 +312,8 @@ def build(c, o, nrows=None):
         body_kw["border_top"] = umatrix(o["utop"])
     if o["ubot"]:
         body_kw["border_bottom"] = umatrix(o["ubot"])
+    if o.get("last_row") is not None:
+        body_kw["last_row"] = bool(o["last_row"])
     if gby:
         body_kw["group_by"] = [dcols[1]]
     if o.get("tcv") and o["texts"] is None and n >= 1:
